@@ -214,6 +214,8 @@ func aolOps(acc aolAccounts, v aolVariant) []explore.Op {
 		}
 	}
 	ops = append(ops, txOp("AddWriter(A,a,W,moniker=revised)", s(A), aoltypes.NewMsgAddWriter("a", "revised", "changed description", W.Bech, A.Bech)))
+	// the topic again, with another description: a topic is created once; whatever the answer, its counters stay what they are
+	ops = append(ops, txOp("CreateTopic(A,a,description=revised)", s(A), aoltypes.NewMsgCreateTopic("a", "a revised description", A.Bech)))
 	for _, p := range pairs {
 		ops = append(ops, txOp(fmt.Sprintf("DeleteWriter(%s,%s,W)", p.o.Name, p.t), s(p.o), aoltypes.NewMsgDeleteWriter(p.t, W.Bech, p.o.Bech)))
 	}
